@@ -9,7 +9,7 @@ ID = "C15"
 LEVEL = "exploration"
 RULE = ("cases are expression trees (depth <= 4) whose leaves are calls of logging functions (one logger per result type; "
         "recursive loggers keep temporaries live across nested activations) and - in half of the cases - BARE reads of mutable state (a variable, a list element, an object field) "
-        "next to logging calls that change that state, combined by binary operators (printed with the "
+        "next to logging calls that change that state, and - one leaf in seven - plain CONSTANTS (so that `f() && false`, `g() || true`, `h() * 0` occur), combined by binary operators (printed with the "
         "minimal parentheses of the precedence table, or explicitly parenthesised), calls with 0-4 arguments whose callees "
         "log on entry, method calls, list and map literals, indexing, &&, ||, `or`; the oracle is the reference interpreter's "
         "log sequence followed by the value. Non-trivial = >= 3 logging leaves of which one is nested >= 2 deep, or a bare state read and a mutator in one expression; distinct by "
@@ -67,6 +67,7 @@ class Ctx:
         self.state = g.chance(50)       # half of the cases mix bare state reads and mutators into the leaves
         self.reads = 0
         self.mutators = 0
+        self.consts = 0
 
     def key(self):
         self.k += 1
@@ -74,9 +75,19 @@ class Ctx:
 
 
 def leaf(c, t, nest):
+    g = c.g
+    if nest > 0 and g.chance(14):
+        # a CONSTANT operand next to operands with effects: whatever the compiler can compute early, the siblings still run
+        g.label("constant-operand")
+        c.consts += 1
+        if t == "int":
+            return I(g.int(-3, 4))
+        if t == "bool":
+            return ("lit", "bool", g.chance(50))
+        if t == "str":
+            return S(g.choice(["", "a", "xyz"]))
     c.leaves += 1
     c.maxdepth = max(c.maxdepth, nest)
-    g = c.g
     if t == "int" and c.state:
         ch = g.weighted([(70, "log"), (16, "read"), (14, "mutate")])
         if ch == "read":
@@ -214,6 +225,12 @@ def check(case):
             r.rejected = True
             if os.environ.get("MSV_DEBUG"):
                 print("REJECTED:\n" + body_src + "\n" + run.stdout[:600])
+            if failure is None:
+                # the reference interpreter runs this program to completion: a compile-time rejection of it is a violation
+                # (when the model predicts a run-time failure, the compiler may legitimately report it earlier)
+                diag = "\n".join(l for l in run.stdout.split("\n") if " = " in l or "-->" in l)[:600]
+                r.failure = fail("the compiler rejected a program that the language accepts and the reference interpreter runs:\n" + diag + "\n" + body_src,
+                                 "C15:rejected-valid-program", sc, case={"diagnostics": diag})
             return r
         r.failure = fail("; ".join(fails) + "\nprogram tail:\n" + body_src, "C15:%s:%s" % ("stdout" if run.stdout != out else "exit", run.klass), sc,
                          case={"source_tail": body_src})
